@@ -2,8 +2,8 @@
 (* C05, the static rules that do not depend on the table's rows, for all four statement kinds.
 
    FROM clause.  SELECT, BALANCES, JOURNAL and PRINT all carry the same FROM clause (an optional filter expression,
-   OPEN ON d, CLOSE [ON e], CLEAR).  A statement is accepted exactly when the filter expression holds no aggregate
-   and, when both dates are written, OPEN is not after CLOSE (equal dates are fine; CLOSE without a date never
+   OPEN ON d, CLOSE [ON e], CLEAR).  A statement is accepted exactly when the filter expression holds no aggregate,
+   no SELECT (a subquery is a FROM table or the right-hand side of IN, nothing else) and, when both dates are written, OPEN is not after CLOSE (equal dates are fine; CLOSE without a date never
    conflicts).  The compiler is modelled as it is built: BALANCES and JOURNAL are rewritten into a SELECT, every
    statement kind hands its FROM clause to ONE routine that applies the two rules.  Route = "shared" is the shipped
    structure; Route = "printown" lets PRINT compile its clause by itself (no rules) and must be refuted.
@@ -14,15 +14,17 @@ EXTENDS Integers, Sequences, TLC, Json
 
 CONSTANT Route                                  \* "shared" | "printown"
 Kinds == {"select", "balances", "journal", "print"}
-Froms == {"none", "plain", "and", "agg", "aggcmp", "aggdeep"}     \* the filter expression; agg*: holds an aggregate
+Froms == {"none", "plain", "and", "agg", "aggcmp", "aggdeep", "sub"}     \* the filter expression; agg*: holds an aggregate; sub: holds a SELECT
 HasAgg(f) == f \in {"agg", "aggcmp", "aggdeep"}
+HasSub(f) == f = "sub"
 Opens == 0..3                                   \* 0: no OPEN; 1..3: three dates in ascending order
 Closes == -1..3                                 \* 0: no CLOSE; -1: CLOSE without a date
 Cases == [kind : Kinds, from : Froms, open : Opens, close : Closes, clear : BOOLEAN]
 
 DatesOK(c) == (c.open > 0 /\ c.close > 0) => c.open <= c.close
-Valid(c) == ~HasAgg(c.from) /\ DatesOK(c)
-Rule(c) == IF HasAgg(c.from) THEN "aggregate in FROM" ELSE IF ~DatesOK(c) THEN "OPEN after CLOSE" ELSE ""
+Valid(c) == ~HasAgg(c.from) /\ ~HasSub(c.from) /\ DatesOK(c)
+Rule(c) == IF HasSub(c.from) THEN "subquery in the FROM expression" ELSE IF HasAgg(c.from) THEN "aggregate in FROM"
+           ELSE IF ~DatesOK(c) THEN "OPEN after CLOSE" ELSE ""
 
 AttrValid(structured, known) == structured /\ known
 
@@ -35,7 +37,8 @@ Rewrite == /\ pc = "rewrite"
            /\ stmt' = IF c.kind \in {"balances", "journal"} THEN "select" ELSE c.kind
            /\ pc' = "from"
            /\ UNCHANGED <<c, accepted>>
-SharedFrom(x) == ~HasAgg(x.from) /\ DatesOK(x)
+\* the filter expression is compiled as an expression (a SELECT in there is refused) before the two rules are applied
+SharedFrom(x) == ~HasSub(x.from) /\ ~HasAgg(x.from) /\ DatesOK(x)
 CompileFrom == /\ pc = "from"
                /\ accepted' = IF stmt = "print" /\ Route = "printown" THEN TRUE ELSE SharedFrom(c)
                /\ pc' = "done"
